@@ -14,6 +14,7 @@ pub const OPS: &[&str] = &[
     "iter", "list_iter", "into_iter", "get", "index", "is_list", "clone", "eq", "drop", "datum_clone", "datum_eq", "datum_drop",
     "datum_list_iter", "datum_to_value", "to_value", "from_value", "serde_text", "value_list", "value_append", "alist_get",
     "parse_err", "parse_datum_err", "datum_tail", "datum_from_ref", "datum_pair_walk",
+    "serde_ignored", "serde_unknown_field", "serde_ignored_slot", "serde_text_unknown_field", "serde_tuple_variant", "serde_map",
 ];
 
 fn build(n: usize, dotted: bool) -> Value {
@@ -109,6 +110,34 @@ pub fn run_op(op: &str, n: usize, dotted: bool) {
         "to_value" => { let xs: Vec<i64> = (0..n as i64).collect(); let v = serde_lexpr::to_value(&xs).unwrap(); assert!(v.is_cons()); }
         #[cfg(feature = "with-serde")]
         "from_value" => { let v = build(n, false); let xs: Vec<i64> = serde_lexpr::from_value(&v).unwrap(); assert_eq!(xs.len(), n); }
+        // a long list that is skipped rather than read: IgnoredAny directly, as the value of a key the
+        // struct does not declare (serde_derive skips it), as a tuple slot; long sequences inside a variant and a map
+        #[cfg(feature = "with-serde")]
+        "serde_ignored" => { let v = build(n, dotted); let _: serde::de::IgnoredAny = serde_lexpr::from_value(&v).unwrap(); std::mem::forget(v); }
+        #[cfg(feature = "with-serde")]
+        "serde_unknown_field" => {
+            #[derive(serde_derive::Deserialize)] struct Known { a: i64 }
+            let v = Value::list(vec![Value::cons(Value::symbol("junk"), build(n, dotted)), Value::cons(Value::symbol("a"), Value::from(7))]);
+            let k: Known = serde_lexpr::from_value(&v).unwrap(); assert_eq!(k.a, 7); std::mem::forget(v);
+        }
+        #[cfg(feature = "with-serde")]
+        "serde_ignored_slot" => { let v = Value::vector(vec![Value::from(1), build(n, dotted)]); let (a, _): (u8, serde::de::IgnoredAny) = serde_lexpr::from_value(&v).unwrap(); assert_eq!(a, 1); std::mem::forget(v); }
+        #[cfg(feature = "with-serde")]
+        "serde_text_unknown_field" => {
+            #[derive(serde_derive::Deserialize)] struct Known { a: i64 }
+            let s = format!("((junk . {}) (a . 7))", text(n, dotted));
+            let k: Known = serde_lexpr::from_str(&s).unwrap(); assert_eq!(k.a, 7);
+        }
+        #[cfg(feature = "with-serde")]
+        "serde_tuple_variant" => {
+            #[derive(serde_derive::Serialize, serde_derive::Deserialize, PartialEq, Debug)] enum E { V(Vec<i64>, u8) }
+            let e = E::V((0..n as i64).collect(), 3); let v = serde_lexpr::to_value(&e).unwrap(); let f: E = serde_lexpr::from_value(&v).unwrap(); assert_eq!(e, f); std::mem::forget(v);
+        }
+        #[cfg(feature = "with-serde")]
+        "serde_map" => {
+            let m: std::collections::BTreeMap<i64, i64> = (0..n as i64).map(|i| (i, i)).collect();
+            let v = serde_lexpr::to_value(&m).unwrap(); let m2: std::collections::BTreeMap<i64, i64> = serde_lexpr::from_value(&v).unwrap(); assert_eq!(m.len(), m2.len()); std::mem::forget(v);
+        }
         #[cfg(feature = "with-serde")]
         "serde_text" => { let xs: Vec<i64> = (0..n as i64).collect(); let s = serde_lexpr::to_string(&xs).unwrap(); let ys: Vec<i64> = serde_lexpr::from_str(&s).unwrap(); assert_eq!(xs, ys); }
         "value_list" => { let v = Value::list((0..n as i64).map(Value::from)); assert!(v.is_cons()); }
@@ -168,7 +197,7 @@ pub fn run(tier: &str, _seed: u64, out: &mut Out) {
     let exe = std::env::current_exe().unwrap();
     for op in OPS {
         for dotted in [false, true] {
-            if dotted && ["from_value", "to_value", "serde_text", "value_list", "value_append", "alist_get"].contains(op) { continue; }
+            if dotted && ["from_value", "to_value", "serde_text", "value_list", "value_append", "alist_get", "serde_tuple_variant", "serde_map"].contains(op) { continue; }
             for n in &sizes {
                 // datum parsing through a stream keeps positions O(1); SliceRead's are O(n) each
                 out.oracle_checks += 1;
